@@ -188,6 +188,55 @@ def arbitrary_cases(rnd, n):
     return out
 
 
+def mixed_cases(rnd, n):
+    """texts assembled field by field from pools of valid, boundary and invalid spellings with random horizontal
+    whitespace and keyword case; what each denotes (or that it is excluded) is decided by spec/TextGrammar.tla"""
+    owners = ["ex.", "h.ex", ".", "_srv._tcp.ex.", "a-b.c-d.", "1a.2b.", "x" * 62 + ".ex.", "A.B.C.D.E.F.", "xn--bcher-kva.ex.", "a..b.", "x" * 64 + ".", "a!b.", "a_b.ex.", "-a.ex.", "1.2.", "ex..",
+              ".".join(["y" * 62] * 3 + ["z" * 60]) + ".", ".".join(["y" * 62] * 3 + ["z" * 61]) + ".", ".".join(["y" * 62] * 4) + "."]
+    ttls = ["0", "1", "60", "007", "2147483647", "2147483648", "4294967295", "4294967296", "42949672950", "99999999999999999999", "", "6x", "-1", "+1", "0x10", "1.5"]
+    classes = ["IN", "in", "In", "iN", "CH", "INN", "I", "1"]
+    hosts = ["ns.ex.", "ns.ex", ".", "a.b.c.d.e.f.g.", "MiXeD.Ex.", "x" * 62 + ".", "x" * 63 + ".", "a..b", "bad!", "_dmarc.ex.", "9.ex.", "ex.9"]
+    v4 = ["1.2.3.4", "0.0.0.0", "255.255.255.255", "256.1.1.1", "1.2.3", "1.2.3.4.5", "01.002.3.4", "1.2.3.", ".1.2.3", "1.2.3.a", "1..2.3", "0001.2.3.4", "1.2.3.4x"]
+    v6 = ["::", "::1", "1::", "2001:db8::1", "1:2:3:4:5:6:7:8", "1:2:3:4:5:6:7::", "::2:3:4:5:6:7:8", "1:2:3:4::5:6:7:8", "1:2:3:4:5:6:7", "1:2:3:4:5:6:7:8:9", "1::2::3", ":::", ":1", "1:", "12345::",
+          "FFFF:ffff::AbCd", "::ffff:1.2.3.4", "g::1", "0:0:0:0:0:0:0:0", "::0:0:0:0:0:0:0", "1:2:3:4:5:6:7:8::"]
+    txts = ['"a"', '"hello world"', '"a\\065b"', '"\\000\\255"', '"\\256"', '"\\25"', '"\\2a5"', '"\\"', '"a\\"b"', '"a" "b"', '"a"b', 'a', '"a', 'a"', '""', '"' + "q" * 255 + '"', '"' + "q" * 256 + '"', '"\t"', '"tab\there"', '" lead and trail "']
+    nums16 = ["0", "10", "65535", "65536", "00010", "", "x", "-1"]
+    nums8 = ["0", "8", "255", "256", "008", "x"]
+    hexes = ["ab", "ABCDEF01", "abc", "a", "", "abcg", "00" * 20, "0" * 63]
+    soan = ["1", "0", "4294967295", "4294967296", "x", "007"]
+    kw = {"A": v4, "AAAA": v6, "NS": hosts, "CNAME": hosts, "PTR": hosts, "TXT": txts}
+
+    def ws(minimum=1):
+        return "".join(rnd.choice(" \t") for _ in range(rnd.randint(minimum, minimum + 2)))
+
+    def case(k):
+        return "".join(c.lower() if rnd.random() < 0.4 else c for c in k)
+
+    out = []
+    for _ in range(n):
+        ty = rnd.choice(["A", "AAAA", "NS", "CNAME", "PTR", "TXT", "MX", "SOA", "DS", "SRV", "AA", "TYPE1"])
+        if ty in kw:
+            rd = rnd.choice(kw[ty])
+        elif ty == "MX":
+            rd = rnd.choice(nums16) + ws() + rnd.choice(hosts) if rnd.random() < 0.9 else rnd.choice(hosts)
+        elif ty == "SOA":
+            body = (ws(0) + ws().join(rnd.choice(soan) if rnd.random() < 0.2 else str(rnd.randrange(1000)) for _ in range(rnd.choice([5, 5, 5, 4, 6]))) + ws(0))
+            rd = rnd.choice(hosts) + ws() + rnd.choice(hosts) + ws(0) + rnd.choice(["(", "(", "(", ""]) + body + rnd.choice([")", ")", ")", ""])
+        elif ty == "DS":
+            rd = ws().join([rnd.choice(nums16), rnd.choice(nums8), rnd.choice(nums8), rnd.choice(hexes)][: rnd.choice([4, 4, 4, 3])])
+        else:
+            rd = "1.2.3.4"
+        good_bias = rnd.random() < 0.6          # most texts differ from a valid one in at most a field or two
+        owner = rnd.choice(owners[:9]) if good_bias else rnd.choice(owners)
+        ttl = rnd.choice(ttls[:7]) if good_bias else rnd.choice(ttls)
+        cls = rnd.choice(classes[:4]) if good_bias else rnd.choice(classes)
+        t = ws(0) + owner + ws() + ttl + ws() + cls + ws() + case(ty) + ws() + rd + ws(0)
+        if rnd.random() < 0.05:
+            t += rnd.choice(["x", " extra", "\n", ";"])
+        out.append(list(t.encode()))
+    return out
+
+
 EMPTY_REC = {"n": [], "t": 0, "ttl": [0, 0, 0, 0], "names": [], "fixed": [], "txt": []}
 
 
@@ -199,5 +248,7 @@ def scenarios(seed, tier):
     for text in damaged_cases(rnd):
         out.append(json.dumps({"do": "synth", "text": list(text.encode()), "expect": "err", "rec": EMPTY_REC}, separators=(",", ":")))
     for b in arbitrary_cases(rnd, 3000 if tier == "quick" else 100000):
+        out.append(json.dumps({"do": "synth", "text": b, "expect": "any", "rec": EMPTY_REC}, separators=(",", ":")))
+    for b in mixed_cases(rnd, 3000 if tier == "quick" else 60000):
         out.append(json.dumps({"do": "synth", "text": b, "expect": "any", "rec": EMPTY_REC}, separators=(",", ":")))
     return out
